@@ -14,3 +14,4 @@ import TLX.Props.Translated.Reasm
 import TLX.Props.Translated.Frames
 import TLX.Props.Translated.Checksum
 import TLX.Props.Translated.Suites
+import TLX.Props.Translated.QuicDissect2
